@@ -7,6 +7,7 @@ git -C /repo apply "$D/patch.diff" || { echo "patch does not apply"; exit 2; }
 ./check "$PID" --tier "$TIER" 2>/tmp/seedtest_err.log | tail -5
 RC=$?
 git -C /repo checkout -- .
+git -C /repo clean -fdq      # files a patch added (nothing else is untracked in /repo; build output is ignored)
 [ -f /tmp/seedtest_ev_$PID.json ] && mv /tmp/seedtest_ev_$PID.json evidence/$PID.json   # evidence is only ever from the clean tree
 python3 /verif/tools/prepare.py >/dev/null 2>&1   # regenerate Gen/ and glue for the clean tree
 git -C /repo status --short | head -3
